@@ -277,6 +277,7 @@ def run(ctx):
                     r.ok("%s: %s depends on the value and is_value_required() only" % (m.short, norm(rz)[:60]))
     ctx.require(n14 >= 1, "the requires-a-value raise of the parser was not found")
     ctx.borrow("c05", "C05-R8", "C02-R15", "'strict raises, lenient never': the verdict on a line is computed from that line's tokens alone - a configuration does not keep a default parser to share between commands and threads (two overlapping parses on one parser mix their scratch state: a line missing a required argument is accepted with the other line's value) (same rule as C05-R8)")
+    ctx.borrow("c17", "C17-R2", "C02-R16", "'strict raises': a command put into lenient mode for one help request is strict again afterwards, on every exit - otherwise malformed lines are accepted for the rest of the process")
     return ctx.results
 
 
